@@ -157,6 +157,10 @@ impl Session {
     }
 
     async fn event_loop(&mut self) {
+        // Ephemeral port, so that several sessions can run the real loop side by side.
+        #[cfg(feature = "verif")]
+        const PORT: u16 = 0;
+
         let listener = TcpListener::bind((Ipv4Addr::new(0, 0, 0, 0), PORT))
             .await
             .expect(&format!("Can't bind to port {}", PORT));
@@ -164,6 +168,9 @@ impl Session {
         let mut change_state_timer = self.start_change_conn_state_timer();
 
         loop {
+            #[cfg(feature = "verif")]
+            crate::verif::publish_session(self.verif_snapshot());
+
             tokio::select! {
                 _ = change_state_timer.tick() => self.timeout_change_conn_state().await.expect("Can't change connection state"),
                 Ok((socket, _)) = listener.accept() => self.spawn_peer_listener(socket).await,
@@ -177,6 +184,121 @@ impl Session {
                 }
             }
         }
+    }
+
+    /// `run()` without the terminal progress view.
+    #[cfg(feature = "verif")]
+    pub async fn verif_run(&mut self) {
+        self.spawn_tracker();
+        self.event_loop().await;
+    }
+
+    #[cfg(feature = "verif")]
+    pub fn verif_snapshot(&self) -> crate::verif::SessionSnap {
+        let mut peers: Vec<crate::verif::PeerSnap> = self
+            .peers
+            .iter()
+            .map(|(addr, peer)| crate::verif::PeerSnap {
+                addr: addr.clone(),
+                id: peer.id,
+                pieces: peer.pieces.clone(),
+                piece_index: peer.piece_index,
+                am_interested: peer.am_interested,
+                am_choked: peer.am_choked,
+                interested: peer.interested,
+                choked: peer.choked,
+                optimistic_unchoke: peer.optimistic_unchoke,
+                download_rate: peer.download_rate,
+                uploaded_rate: peer.uploaded_rate,
+                has_job: peer.job.is_some(),
+            })
+            .collect();
+        peers.sort_by(|a, b| a.addr.cmp(&b.addr));
+
+        crate::verif::SessionSnap {
+            statuses: self.pieces_status.clone(),
+            peers,
+            candidates: self.candidates.clone(),
+            round: self.round,
+            files_extracted: self.files_extracted,
+            tracker_running: self.tracker.job.is_some(),
+            extractor_running: self.extractor.job.is_some(),
+            loop_iterations: 0,
+        }
+    }
+
+    /// Sender on which connection tasks reach the manager.
+    #[cfg(feature = "verif")]
+    pub fn verif_peer_tx(&self) -> mpsc::Sender<PeerCmd> {
+        self.general_channels.tx.clone()
+    }
+
+    /// A receiver of the manager's broadcasts, as a connection task gets one.
+    #[cfg(feature = "verif")]
+    pub fn verif_subscribe(&self) -> broadcast::Receiver<BroadCmd> {
+        self.general_channels.broad.subscribe()
+    }
+
+    /// Next queued command of a connection task, if any (the harness plays `event_loop`).
+    #[cfg(feature = "verif")]
+    pub fn verif_try_recv_peer_cmd(&mut self) -> Option<PeerCmd> {
+        self.general_channels.rx.try_recv().ok()
+    }
+
+    #[cfg(feature = "verif")]
+    pub fn verif_try_recv_extractor_cmd(&mut self) -> Option<ExtractorCmd> {
+        self.extractor.rx_ch.try_recv().ok()
+    }
+
+    #[cfg(feature = "verif")]
+    pub async fn verif_handle_peer_cmd(&mut self, cmd: PeerCmd) -> Result<bool, Error> {
+        self.handle_peer_cmd(cmd).await
+    }
+
+    #[cfg(feature = "verif")]
+    pub async fn verif_handle_tracker_cmd(&mut self, cmd: TrackerCmd) {
+        self.handle_tracker_cmd(cmd).await
+    }
+
+    #[cfg(feature = "verif")]
+    pub async fn verif_handle_extractor_cmd(&mut self, cmd: ExtractorCmd) {
+        self.handle_extractor_cmd(cmd).await
+    }
+
+    /// One firing of the choke-rotation timer.
+    #[cfg(feature = "verif")]
+    pub async fn verif_rotate(&mut self) -> Result<(), String> {
+        self.timeout_change_conn_state()
+            .await
+            .map_err(|e| e.to_string())
+    }
+
+    /// Register a peer exactly as `spawn_peer_handler` / `spawn_peer_listener` do.
+    #[cfg(feature = "verif")]
+    pub fn verif_register_peer(
+        &mut self,
+        addr: String,
+        peer_id: Option<[u8; PEER_ID_SIZE]>,
+        job: JoinHandle<()>,
+    ) {
+        let peer = Peer::new(peer_id, self.metainfo.pieces_num(), job);
+        self.peers.insert(addr, peer);
+    }
+
+    /// Start exploration from a non-initial state.
+    #[cfg(feature = "verif")]
+    pub fn verif_set_status(&mut self, piece_index: usize, status: Status) {
+        self.pieces_status[piece_index] = status;
+    }
+
+    #[cfg(feature = "verif")]
+    pub fn verif_peer_mut(&mut self, addr: &str) -> Option<&mut Peer> {
+        self.peers.get_mut(addr)
+    }
+
+    #[cfg(feature = "verif")]
+    pub async fn verif_choose_piece_index(&mut self, addr: &String) -> Option<usize> {
+        self.choose_piece_index(addr).await
     }
 
     fn start_change_conn_state_timer(&self) -> Interval {
@@ -217,6 +339,11 @@ impl Session {
             .map(|param| make_pair(param))
             .collect::<Vec<(String, u32)>>();
 
+        // Equal rates keep their relative order in the (stable) sort below; start from a
+        // reproducible order instead of the HashMap's.
+        #[cfg(feature = "verif")]
+        rate.sort_by(|(a1, _), (a2, _)| a1.cmp(a2));
+
         let state_before = self.conn_state_text();
         let cmd = self.change_conn_state(&mut rate, &new_optimistic)?;
         let state_after = self.conn_state_text();
@@ -253,6 +380,18 @@ impl Session {
             .map(|(addr, _)| addr.clone())
             .collect::<Vec<String>>();
 
+        // Choice point decided by the harness instead of thread_rng.
+        #[cfg(feature = "verif")]
+        {
+            let mut sorted = all_am_choked_and_peer_interested.clone();
+            sorted.sort();
+            return match sorted.is_empty() {
+                true => vec![],
+                false => vec![sorted[crate::verif::choose(sorted.len())].clone()],
+            };
+        }
+
+        #[cfg(not(feature = "verif"))]
         match all_am_choked_and_peer_interested.choose(&mut rand::thread_rng()) {
             Some(addr) => vec![addr.clone()],
             None => vec![],
@@ -633,7 +772,10 @@ impl Session {
         drop(is_desired);
 
         // Shuffle to get better distribution of pieces from peers
+        #[cfg(not(feature = "verif"))]
         rarest.shuffle(&mut rand::thread_rng());
+        #[cfg(feature = "verif")]
+        crate::verif::shuffle(&mut rarest);
 
         // Sort by rarest
         rarest.sort_by(|(_, count1), (_, count2)| count1.cmp(&count2));
